@@ -1,0 +1,20 @@
+//go:build verif
+
+// Machine-checked contracts for govc (see /verif/DESIGN.md). Comments only;
+// compiled only with the build tag "verif".
+
+package rule
+
+// C01: the contract every rule obeys (proved for ruleImpl.Execute, the only implementation):
+// a nil error means the pipeline completed or a non-nil pipeline error was recorded on ctx last.
+//@ iface (Rule).Execute
+//@   props C01
+//@   logged rex
+//@   ensures ret1 != nil ==> ret0 == nil
+//@   ensures ret1 == nil ==> (spe.n > old(spe.n) && spe.arg0[spe.n-1] == ctx && spe.arg1[spe.n-1] != nil) || (auth.n > old(auth.n) && auth.ret1[auth.n-1] == nil && forall k int :: old(step.n) <= k && k < step.n ==> step.ret0[k] == nil || continueOnError(step.arg0[k]))
+
+//@ iface (Repository).FindRule
+//@   logged find
+
+//@ iface (Executor).Execute
+//@   logged exec
